@@ -164,6 +164,9 @@ package pub
 //@ [C08] ensures unlocked: held == emp
 //@ [C07] requires authed: authed
 //@ modifies $db, A:Int, A:Iface
+//@ [C11] ensures id_set: err == nil ==> activity != nil && activity.GetJSONLDId() != nil && activity.GetJSONLDId().Get() != nil
+//@ [C11] at call pub.DelegateActor.PostOutbox#1: assume!post id_stable: activity.GetJSONLDId() == old(activity.GetJSONLDId()) && activity.GetJSONLDId().Get() == old(activity.GetJSONLDId().Get())
+//@ [C11] at call pub.DelegateActor.Deliver#1: assume!post id_stable: activity.GetJSONLDId() == old(activity.GetJSONLDId()) && activity.GetJSONLDId().Get() == old(activity.GetJSONLDId().Get())
 
 //@ func (*pub.baseActorFederating).Send
 //@ [C11] requires b != nil && b.baseActor.delegate != nil && outbox != nil && t != nil
@@ -177,7 +180,7 @@ package pub
 // ---------------------------------------------------------------- side_effect_actor.go
 //@ func (*pub.sideEffectActor).AuthenticatePostInbox
 //@ [C11] requires a != nil && a.s2s != nil
-//@ modifies authed, wrote, appCalls, ASH
+//@ modifies authed, wrote, appCalls
 //@ ensures appCalls == old(appCalls) + 1
 //@ ensures authed == (err == nil && authenticated)
 //@ ensures err != nil ==> wrote == old(wrote)
@@ -186,7 +189,7 @@ package pub
 
 //@ func (*pub.sideEffectActor).AuthenticateGetInbox
 //@ [C11] requires a != nil && a.common != nil
-//@ modifies authed, wrote, appCalls, ASH
+//@ modifies authed, wrote, appCalls
 //@ ensures appCalls == old(appCalls) + 1
 //@ ensures authed == (err == nil && authenticated)
 //@ ensures err != nil ==> wrote == old(wrote)
@@ -195,7 +198,7 @@ package pub
 
 //@ func (*pub.sideEffectActor).AuthenticatePostOutbox
 //@ [C11] requires a != nil && a.c2s != nil
-//@ modifies authed, wrote, appCalls, ASH
+//@ modifies authed, wrote, appCalls
 //@ ensures appCalls == old(appCalls) + 1
 //@ ensures authed == (err == nil && authenticated)
 //@ ensures err != nil ==> wrote == old(wrote)
@@ -204,7 +207,7 @@ package pub
 
 //@ func (*pub.sideEffectActor).AuthenticateGetOutbox
 //@ [C11] requires a != nil && a.common != nil
-//@ modifies authed, wrote, appCalls, ASH
+//@ modifies authed, wrote, appCalls
 //@ ensures appCalls == old(appCalls) + 1
 //@ ensures authed == (err == nil && authenticated)
 //@ ensures err != nil ==> wrote == old(wrote)
@@ -213,12 +216,12 @@ package pub
 
 //@ func (*pub.sideEffectActor).PostInboxRequestBodyHook
 //@ [C11] requires a != nil && a.s2s != nil
-//@ modifies appCalls, ASH
+//@ modifies appCalls
 //@ ensures appCalls == old(appCalls) + 1
 
 //@ func (*pub.sideEffectActor).PostOutboxRequestBodyHook
 //@ [C11] requires a != nil && a.c2s != nil
-//@ modifies appCalls, ASH
+//@ modifies appCalls
 //@ ensures appCalls == old(appCalls) + 1
 
 //@ func (*pub.sideEffectActor).GetOutbox
@@ -247,6 +250,10 @@ package pub
 //@ modifies cleared, lastBlocked, appCalls, wrote, libWrote, status, A:Int, A:Iface
 //@ [C10] requires not_blocked_yet: !lastBlocked
 //@ [C10] ensures blocked_flag: lastBlocked == (!authorized && err == nil)
+//@ loop 1 [C11] invariant idx: 0 <= i
+//@ loop 1 [C11] decreases actor.Len() - i
+//@ [C11] requires has_id: activity.GetJSONLDId() != nil
+//@ [C11] ensures actor_present: authorized ==> activity.GetActivityStreamsActor() != nil
 
 //@ func (*pub.sideEffectActor).PostInbox
 //@ [C11] requires a != nil && a.db != nil && a.s2s != nil && a.common != nil && inboxIRI != nil && activity != nil
@@ -256,6 +263,10 @@ package pub
 //@ [C08] ensures unlocked: held == emp
 //@ [C07] requires authed: authed && cleared
 //@ modifies $db, A:Int, A:Iface
+//@ [C11] requires has_id: activity.GetJSONLDId() != nil
+//@ [C11] requires has_actor: activity.GetActivityStreamsActor() != nil
+//@ [C11] ensures id_kept: activity.GetJSONLDId() == old(activity.GetJSONLDId())
+//@ [C11] at call (streams.TypeResolver).Resolve#1: assume!post id_stable: activity.GetJSONLDId() == old(activity.GetJSONLDId())
 
 //@ func (*pub.sideEffectActor).InboxForwarding
 //@ [C11] requires a != nil && a.db != nil && a.s2s != nil && a.common != nil && inboxIRI != nil && activity != nil
@@ -271,6 +282,7 @@ package pub
 //@ loop 4 [C08] invariant nothing_deferred: deferredUnlock == emp
 //@ loop 5 [C09] invariant held_is_deferred: held == deferredUnlock
 //@ loop 5 [C08] invariant held_is_deferred: held == deferredUnlock
+//@ [C11] requires has_id: activity.GetJSONLDId() != nil
 
 //@ func (*pub.sideEffectActor).PostOutbox
 //@ [C11] requires a != nil && a.db != nil && a.common != nil && outboxIRI != nil && activity != nil
@@ -280,13 +292,18 @@ package pub
 //@ [C08] ensures unlocked: held == emp
 //@ [C07] requires authed: authed
 //@ modifies $db, A:Int, A:Iface
+//@ [C11] requires has_id: activity.GetJSONLDId() != nil
+//@ [C11] requires a.clock != nil
+//@ [C11] at call (streams.TypeResolver).Resolve#1: assume!post id_stable: activity.GetJSONLDId() == old(activity.GetJSONLDId())
 
 //@ func (*pub.sideEffectActor).AddNewIDs
 //@ [C11] requires a != nil && a.db != nil && activity != nil
 //@ [C07] requires authed: authed
 //@ [C09] ensures unchanged: held == old(held)
 //@ [C08] ensures unchanged: held == old(held)
-//@ modifies eff, appCalls, ASH
+//@ modifies eff, appCalls, ASH, ASHP, props, idval
+//@ [C11] ensures id_set: err == nil ==> activity.GetJSONLDId() != nil && activity.GetJSONLDId().Get() != nil
+//@ loop 1 [C11] invariant id_set: activity.GetJSONLDId() != nil && activity.GetJSONLDId().Get() != nil
 
 //@ func (*pub.sideEffectActor).Deliver
 //@ [C11] requires a != nil && a.db != nil && a.common != nil && a.s2s != nil && outboxIRI != nil && activity != nil
@@ -319,6 +336,7 @@ package pub
 //@ [C08] ensures unlocked: held == emp
 //@ [C07] requires authed: authed
 //@ modifies $db
+//@ [C11] requires has_id: activity.GetJSONLDId() != nil
 
 //@ func (*pub.sideEffectActor).addToInboxIfNew
 //@ [C11] requires a != nil && a.db != nil && inboxIRI != nil && activity != nil
@@ -329,6 +347,8 @@ package pub
 //@ [C07] requires authed: authed && cleared
 //@ [C08] at call Database.SetInbox#1: assert contains_same_hold: epochContains[str(inboxIRI)] == epoch[str(inboxIRI)] && held[str(inboxIRI)]
 //@ modifies $db
+//@ [C11] requires has_id: activity.GetJSONLDId() != nil
+//@ [C11] ensures slots_kept: activity.GetJSONLDId() == old(activity.GetJSONLDId()) && activity.GetActivityStreamsActor() == old(activity.GetActivityStreamsActor())
 
 //@ func (*pub.sideEffectActor).hasInboxForwardingValues
 //@ [C11] requires a != nil && a.db != nil && a.common != nil && val != nil
@@ -346,6 +366,8 @@ package pub
 //@ loop 3 [C08] invariant unlocked: held == emp
 //@ loop 4 [C09] invariant unlocked: held == emp
 //@ loop 4 [C08] invariant unlocked: held == emp
+//@ [C11] requires positive_limit: maxDepth > 0
+//@ [C11] decreases maxDepth - currDepth
 
 //@ func (*pub.sideEffectActor).prepare
 //@ [C11] requires a != nil && a.db != nil && a.common != nil && a.s2s != nil && outboxIRI != nil && activity != nil
@@ -362,6 +384,8 @@ package pub
 //@ [C11] requires a != nil && t != nil
 //@ [C07] requires authed: authed
 //@ modifies eff, appCalls, A:Int, A:Iface
+//@ [C11] requires positive_limit: maxDepth > 0
+//@ [C11] decreases maxDepth - depth
 
 //@ func (*pub.sideEffectActor).dereferenceForResolvingInboxes
 //@ [C11] requires a != nil && t != nil
@@ -370,7 +394,7 @@ package pub
 
 // ---------------------------------------------------------------- federating_wrapped_callbacks.go
 //@ func (pub.FederatingWrappedCallbacks).create
-//@ [C11] requires w.db != nil && w.inboxIRI != nil && a != nil
+//@ [C11] requires w.db != nil && w.inboxIRI != nil && a != nil && w.newTransport != nil && w.addNewIds != nil && w.deliver != nil
 //@ [C09] requires unlocked: held == emp
 //@ [C09] ensures unlocked: held == emp
 //@ [C08] requires unlocked: held == emp
@@ -380,18 +404,19 @@ package pub
 //@ loop 1 [C09] invariant unlocked: held == emp
 //@ loop 1 [C08] invariant unlocked: held == emp
 //@ [C10] ensures object_required: old(a.GetActivityStreamsObject() == nil || a.GetActivityStreamsObject().Len() == 0) ==> result == pub.ErrObjectRequired && eff == old(eff)
+//@ [C11] requires has_actor: a.GetActivityStreamsActor() != nil
 
 //@ func (pub.FederatingWrappedCallbacks).create$1
-//@ [C11] requires w.db != nil && w.inboxIRI != nil && iter != nil
+//@ [C11] requires w.db != nil && w.inboxIRI != nil && iter != nil && w.newTransport != nil
 //@ [C09] requires unlocked: held == emp
 //@ [C09] ensures unlocked: held == emp
 //@ [C08] requires unlocked: held == emp
 //@ [C08] ensures unlocked: held == emp
 //@ [C07] requires authed: authed && cleared
-//@ modifies $db
+//@ modifies $dbonly
 
 //@ func (pub.FederatingWrappedCallbacks).update
-//@ [C11] requires w.db != nil && w.inboxIRI != nil && a != nil
+//@ [C11] requires w.db != nil && w.inboxIRI != nil && a != nil && w.newTransport != nil && w.addNewIds != nil && w.deliver != nil
 //@ [C09] requires unlocked: held == emp
 //@ [C09] ensures unlocked: held == emp
 //@ [C08] requires unlocked: held == emp
@@ -401,6 +426,7 @@ package pub
 //@ loop 1 [C09] invariant unlocked: held == emp
 //@ loop 1 [C08] invariant unlocked: held == emp
 //@ [C10] ensures object_required: old(a.GetActivityStreamsObject() == nil || a.GetActivityStreamsObject().Len() == 0) ==> result == pub.ErrObjectRequired && eff == old(eff)
+//@ [C11] requires has_actor: a.GetActivityStreamsActor() != nil
 
 //@ func (pub.FederatingWrappedCallbacks).update$1
 //@ [C11] requires w.db != nil && iter != nil
@@ -409,10 +435,10 @@ package pub
 //@ [C08] requires unlocked: held == emp
 //@ [C08] ensures unlocked: held == emp
 //@ [C07] requires authed: authed && cleared
-//@ modifies $db
+//@ modifies $dbonly
 
 //@ func (pub.FederatingWrappedCallbacks).deleteFn
-//@ [C11] requires w.db != nil && w.inboxIRI != nil && a != nil
+//@ [C11] requires w.db != nil && w.inboxIRI != nil && a != nil && w.newTransport != nil && w.addNewIds != nil && w.deliver != nil
 //@ [C09] requires unlocked: held == emp
 //@ [C09] ensures unlocked: held == emp
 //@ [C08] requires unlocked: held == emp
@@ -422,6 +448,7 @@ package pub
 //@ loop 1 [C09] invariant unlocked: held == emp
 //@ loop 1 [C08] invariant unlocked: held == emp
 //@ [C10] ensures object_required: old(a.GetActivityStreamsObject() == nil || a.GetActivityStreamsObject().Len() == 0) ==> result == pub.ErrObjectRequired && eff == old(eff)
+//@ [C11] requires has_actor: a.GetActivityStreamsActor() != nil
 
 //@ func (pub.FederatingWrappedCallbacks).deleteFn$1
 //@ [C11] requires w.db != nil && iter != nil
@@ -430,10 +457,10 @@ package pub
 //@ [C08] requires unlocked: held == emp
 //@ [C08] ensures unlocked: held == emp
 //@ [C07] requires authed: authed && cleared
-//@ modifies $db
+//@ modifies $dbonly
 
 //@ func (pub.FederatingWrappedCallbacks).follow
-//@ [C11] requires w.db != nil && w.inboxIRI != nil && a != nil
+//@ [C11] requires w.db != nil && w.inboxIRI != nil && a != nil && w.newTransport != nil && w.addNewIds != nil && w.deliver != nil
 //@ [C09] requires unlocked: held == emp
 //@ [C09] ensures unlocked: held == emp
 //@ [C08] requires unlocked: held == emp
@@ -442,9 +469,10 @@ package pub
 //@ modifies $db, A:Int, A:Iface
 //@ [C08] at call Database.Update#1: assert same_hold: held[srcKey[followers]] && srcEpoch[followers] == epoch[srcKey[followers]]
 //@ [C10] ensures object_required: old(a.GetActivityStreamsObject() == nil || a.GetActivityStreamsObject().Len() == 0) ==> result == pub.ErrObjectRequired && eff == old(eff)
+//@ [C11] requires has_actor: a.GetActivityStreamsActor() != nil
 
 //@ func (pub.FederatingWrappedCallbacks).accept
-//@ [C11] requires w.db != nil && w.inboxIRI != nil && a != nil
+//@ [C11] requires w.db != nil && w.inboxIRI != nil && a != nil && w.newTransport != nil && w.addNewIds != nil && w.deliver != nil
 //@ [C09] requires unlocked: held == emp
 //@ [C09] ensures unlocked: held == emp
 //@ [C08] requires unlocked: held == emp
@@ -456,6 +484,8 @@ package pub
 //@ loop 1 [C08] invariant unlocked: held == emp
 //@ loop 3 [C09] invariant holds_actor: held == emp[str(actorIRI) := true]
 //@ loop 3 [C08] invariant holds_actor: held == emp[str(actorIRI) := true] && srcKey[following] == str(actorIRI) && srcEpoch[following] == epoch[str(actorIRI)]
+//@ [C11] requires has_actor: a.GetActivityStreamsActor() != nil
+//@ loop 1 [C11] invariant actor_known: actorIRI != nil
 
 //@ func (pub.FederatingWrappedCallbacks).accept$1
 //@ [C11] requires w.db != nil && maybeMyFollowIRI != nil && actorIRI != nil && activityActors != nil
@@ -467,16 +497,17 @@ package pub
 //@ modifies $db
 
 //@ func (pub.FederatingWrappedCallbacks).reject
-//@ [C11] requires w.db != nil && w.inboxIRI != nil && a != nil
+//@ [C11] requires w.db != nil && w.inboxIRI != nil && a != nil && w.newTransport != nil && w.addNewIds != nil && w.deliver != nil
 //@ [C09] requires unlocked: held == emp
 //@ [C09] ensures unlocked: held == emp
 //@ [C08] requires unlocked: held == emp
 //@ [C08] ensures unlocked: held == emp
 //@ [C07] requires authed: authed && cleared
 //@ modifies $db
+//@ [C11] requires has_actor: a.GetActivityStreamsActor() != nil
 
 //@ func (pub.FederatingWrappedCallbacks).add
-//@ [C11] requires w.db != nil && w.inboxIRI != nil && a != nil
+//@ [C11] requires w.db != nil && w.inboxIRI != nil && a != nil && w.newTransport != nil && w.addNewIds != nil && w.deliver != nil
 //@ [C09] requires unlocked: held == emp
 //@ [C09] ensures unlocked: held == emp
 //@ [C08] requires unlocked: held == emp
@@ -485,9 +516,10 @@ package pub
 //@ modifies $db
 //@ [C10] ensures object_required: old(a.GetActivityStreamsObject() == nil || a.GetActivityStreamsObject().Len() == 0) ==> result == pub.ErrObjectRequired && eff == old(eff)
 //@ [C10] ensures target_required: old(!(a.GetActivityStreamsObject() == nil || a.GetActivityStreamsObject().Len() == 0) && (a.GetActivityStreamsTarget() == nil || a.GetActivityStreamsTarget().Len() == 0)) ==> result == pub.ErrTargetRequired && eff == old(eff)
+//@ [C11] requires has_actor: a.GetActivityStreamsActor() != nil
 
 //@ func (pub.FederatingWrappedCallbacks).remove
-//@ [C11] requires w.db != nil && w.inboxIRI != nil && a != nil
+//@ [C11] requires w.db != nil && w.inboxIRI != nil && a != nil && w.newTransport != nil && w.addNewIds != nil && w.deliver != nil
 //@ [C09] requires unlocked: held == emp
 //@ [C09] ensures unlocked: held == emp
 //@ [C08] requires unlocked: held == emp
@@ -496,9 +528,10 @@ package pub
 //@ modifies $db
 //@ [C10] ensures object_required: old(a.GetActivityStreamsObject() == nil || a.GetActivityStreamsObject().Len() == 0) ==> result == pub.ErrObjectRequired && eff == old(eff)
 //@ [C10] ensures target_required: old(!(a.GetActivityStreamsObject() == nil || a.GetActivityStreamsObject().Len() == 0) && (a.GetActivityStreamsTarget() == nil || a.GetActivityStreamsTarget().Len() == 0)) ==> result == pub.ErrTargetRequired && eff == old(eff)
+//@ [C11] requires has_actor: a.GetActivityStreamsActor() != nil
 
 //@ func (pub.FederatingWrappedCallbacks).like
-//@ [C11] requires w.db != nil && w.inboxIRI != nil && a != nil
+//@ [C11] requires w.db != nil && w.inboxIRI != nil && a != nil && w.newTransport != nil && w.addNewIds != nil && w.deliver != nil
 //@ [C09] requires unlocked: held == emp
 //@ [C09] ensures unlocked: held == emp
 //@ [C08] requires unlocked: held == emp
@@ -508,6 +541,7 @@ package pub
 //@ loop 1 [C09] invariant unlocked: held == emp
 //@ loop 1 [C08] invariant unlocked: held == emp
 //@ [C10] ensures object_required: old(a.GetActivityStreamsObject() == nil || a.GetActivityStreamsObject().Len() == 0) ==> result == pub.ErrObjectRequired && eff == old(eff)
+//@ [C11] requires has_actor: a.GetActivityStreamsActor() != nil
 
 //@ func (pub.FederatingWrappedCallbacks).like$1
 //@ [C11] requires w.db != nil && iter != nil && id != nil
@@ -520,7 +554,7 @@ package pub
 //@ modifies $db
 
 //@ func (pub.FederatingWrappedCallbacks).announce
-//@ [C11] requires w.db != nil && w.inboxIRI != nil && a != nil
+//@ [C11] requires w.db != nil && w.inboxIRI != nil && a != nil && w.newTransport != nil && w.addNewIds != nil && w.deliver != nil
 //@ [C09] requires unlocked: held == emp
 //@ [C09] ensures unlocked: held == emp
 //@ [C08] requires unlocked: held == emp
@@ -529,6 +563,7 @@ package pub
 //@ modifies $db
 //@ loop 1 [C09] invariant unlocked: held == emp
 //@ loop 1 [C08] invariant unlocked: held == emp
+//@ [C11] requires has_actor: a.GetActivityStreamsActor() != nil
 
 //@ func (pub.FederatingWrappedCallbacks).announce$1
 //@ [C11] requires w.db != nil && iter != nil && id != nil
@@ -541,7 +576,7 @@ package pub
 //@ modifies $db
 
 //@ func (pub.FederatingWrappedCallbacks).undo
-//@ [C11] requires w.db != nil && w.inboxIRI != nil && a != nil
+//@ [C11] requires w.db != nil && w.inboxIRI != nil && a != nil && w.newTransport != nil && w.addNewIds != nil && w.deliver != nil
 //@ [C09] requires unlocked: held == emp
 //@ [C09] ensures unlocked: held == emp
 //@ [C08] requires unlocked: held == emp
@@ -549,9 +584,10 @@ package pub
 //@ [C07] requires authed: authed && cleared
 //@ modifies $db
 //@ [C10] ensures object_required: old(a.GetActivityStreamsObject() == nil || a.GetActivityStreamsObject().Len() == 0) ==> result == pub.ErrObjectRequired && eff == old(eff)
+//@ [C11] requires has_actor: a.GetActivityStreamsActor() != nil
 
 //@ func (pub.FederatingWrappedCallbacks).block
-//@ [C11] requires w.db != nil && w.inboxIRI != nil && a != nil
+//@ [C11] requires w.db != nil && w.inboxIRI != nil && a != nil && w.newTransport != nil && w.addNewIds != nil && w.deliver != nil
 //@ [C09] requires unlocked: held == emp
 //@ [C09] ensures unlocked: held == emp
 //@ [C08] requires unlocked: held == emp
@@ -559,13 +595,14 @@ package pub
 //@ [C07] requires authed: authed && cleared
 //@ modifies $db
 //@ [C10] ensures object_required: old(a.GetActivityStreamsObject() == nil || a.GetActivityStreamsObject().Len() == 0) ==> result == pub.ErrObjectRequired && eff == old(eff)
+//@ [C11] requires has_actor: a.GetActivityStreamsActor() != nil
 
 //@ func (pub.FederatingWrappedCallbacks).callbacks
 //@ modifies A:Int, A:Iface
 
 // ---------------------------------------------------------------- social_wrapped_callbacks.go
 //@ func (pub.SocialWrappedCallbacks).create
-//@ [C11] requires w.db != nil && w.outboxIRI != nil && w.undeliverable != nil && a != nil
+//@ [C11] requires w.db != nil && w.outboxIRI != nil && w.undeliverable != nil && a != nil && w.newTransport != nil && w.clock != nil
 //@ [C09] requires unlocked: held == emp
 //@ [C09] ensures unlocked: held == emp
 //@ [C08] requires unlocked: held == emp
@@ -575,6 +612,7 @@ package pub
 //@ loop 9 [C09] invariant unlocked: held == emp
 //@ loop 9 [C08] invariant unlocked: held == emp
 //@ [C10] ensures object_required: old(a.GetActivityStreamsObject() == nil || a.GetActivityStreamsObject().Len() == 0) ==> result == pub.ErrObjectRequired && eff == old(eff)
+//@ skip C11 panic-freedom of the attributedTo normalisation needs quantified invariants over a slice of maps and over the objects' attributedTo slots; not proved (bounded stand-in only)
 
 //@ func (pub.SocialWrappedCallbacks).create$1
 //@ [C11] requires w.db != nil && op != nil
@@ -583,10 +621,10 @@ package pub
 //@ [C08] requires unlocked: held == emp
 //@ [C08] ensures unlocked: held == emp
 //@ [C07] requires authed: authed
-//@ modifies $db
+//@ modifies $dbonly
 
 //@ func (pub.SocialWrappedCallbacks).update
-//@ [C11] requires w.db != nil && w.outboxIRI != nil && w.undeliverable != nil && a != nil
+//@ [C11] requires w.db != nil && w.outboxIRI != nil && w.undeliverable != nil && a != nil && w.newTransport != nil && w.clock != nil
 //@ [C09] requires unlocked: held == emp
 //@ [C09] ensures unlocked: held == emp
 //@ [C08] requires unlocked: held == emp
@@ -596,6 +634,7 @@ package pub
 //@ loop 2 [C09] invariant unlocked: held == emp
 //@ loop 2 [C08] invariant unlocked: held == emp
 //@ [C10] ensures object_required: old(a.GetActivityStreamsObject() == nil || a.GetActivityStreamsObject().Len() == 0) ==> result == pub.ErrObjectRequired && eff == old(eff)
+//@ loop 1 [C11] invariant collected: len(objIds) == (iter == nil ? op.Len() : ipos(iter)) && (iter != nil ==> ilen(iter) == op.Len())
 
 //@ func (pub.SocialWrappedCallbacks).update$1
 //@ [C11] requires w.db != nil && op != nil && loopId != nil
@@ -604,10 +643,11 @@ package pub
 //@ [C08] requires unlocked: held == emp
 //@ [C08] ensures unlocked: held == emp
 //@ [C07] requires authed: authed
-//@ modifies $db, MD:String:Iface, MV:String:Iface
+//@ modifies $dbonly, MD:String:Iface, MV:String:Iface
+//@ [C11] requires in_range: 0 <= idx && idx < op.Len()
 
 //@ func (pub.SocialWrappedCallbacks).deleteFn
-//@ [C11] requires w.db != nil && w.outboxIRI != nil && w.undeliverable != nil && a != nil
+//@ [C11] requires w.db != nil && w.outboxIRI != nil && w.undeliverable != nil && a != nil && w.newTransport != nil && w.clock != nil
 //@ [C09] requires unlocked: held == emp
 //@ [C09] ensures unlocked: held == emp
 //@ [C08] requires unlocked: held == emp
@@ -625,10 +665,10 @@ package pub
 //@ [C08] requires unlocked: held == emp
 //@ [C08] ensures unlocked: held == emp
 //@ [C07] requires authed: authed
-//@ modifies $db
+//@ modifies $dbonly, ASH, ASHP, props, idval
 
 //@ func (pub.SocialWrappedCallbacks).follow
-//@ [C11] requires w.db != nil && w.outboxIRI != nil && w.undeliverable != nil && a != nil
+//@ [C11] requires w.db != nil && w.outboxIRI != nil && w.undeliverable != nil && a != nil && w.newTransport != nil && w.clock != nil
 //@ [C09] requires unlocked: held == emp
 //@ [C09] ensures unlocked: held == emp
 //@ [C08] requires unlocked: held == emp
@@ -638,7 +678,7 @@ package pub
 //@ [C10] ensures object_required: old(a.GetActivityStreamsObject() == nil || a.GetActivityStreamsObject().Len() == 0) ==> result == pub.ErrObjectRequired && eff == old(eff)
 
 //@ func (pub.SocialWrappedCallbacks).add
-//@ [C11] requires w.db != nil && w.outboxIRI != nil && w.undeliverable != nil && a != nil
+//@ [C11] requires w.db != nil && w.outboxIRI != nil && w.undeliverable != nil && a != nil && w.newTransport != nil && w.clock != nil
 //@ [C09] requires unlocked: held == emp
 //@ [C09] ensures unlocked: held == emp
 //@ [C08] requires unlocked: held == emp
@@ -649,7 +689,7 @@ package pub
 //@ [C10] ensures target_required: old(!(a.GetActivityStreamsObject() == nil || a.GetActivityStreamsObject().Len() == 0) && (a.GetActivityStreamsTarget() == nil || a.GetActivityStreamsTarget().Len() == 0)) ==> result == pub.ErrTargetRequired && eff == old(eff)
 
 //@ func (pub.SocialWrappedCallbacks).remove
-//@ [C11] requires w.db != nil && w.outboxIRI != nil && w.undeliverable != nil && a != nil
+//@ [C11] requires w.db != nil && w.outboxIRI != nil && w.undeliverable != nil && a != nil && w.newTransport != nil && w.clock != nil
 //@ [C09] requires unlocked: held == emp
 //@ [C09] ensures unlocked: held == emp
 //@ [C08] requires unlocked: held == emp
@@ -660,7 +700,7 @@ package pub
 //@ [C10] ensures target_required: old(!(a.GetActivityStreamsObject() == nil || a.GetActivityStreamsObject().Len() == 0) && (a.GetActivityStreamsTarget() == nil || a.GetActivityStreamsTarget().Len() == 0)) ==> result == pub.ErrTargetRequired && eff == old(eff)
 
 //@ func (pub.SocialWrappedCallbacks).like
-//@ [C11] requires w.db != nil && w.outboxIRI != nil && w.undeliverable != nil && a != nil
+//@ [C11] requires w.db != nil && w.outboxIRI != nil && w.undeliverable != nil && a != nil && w.newTransport != nil && w.clock != nil
 //@ [C09] requires unlocked: held == emp
 //@ [C09] ensures unlocked: held == emp
 //@ [C08] requires unlocked: held == emp
@@ -673,7 +713,7 @@ package pub
 //@ [C10] ensures object_required: old(a.GetActivityStreamsObject() == nil || a.GetActivityStreamsObject().Len() == 0) ==> result == pub.ErrObjectRequired && eff == old(eff)
 
 //@ func (pub.SocialWrappedCallbacks).undo
-//@ [C11] requires w.db != nil && w.outboxIRI != nil && w.undeliverable != nil && a != nil
+//@ [C11] requires w.db != nil && w.outboxIRI != nil && w.undeliverable != nil && a != nil && w.newTransport != nil && w.clock != nil
 //@ [C09] requires unlocked: held == emp
 //@ [C09] ensures unlocked: held == emp
 //@ [C08] requires unlocked: held == emp
@@ -683,7 +723,7 @@ package pub
 //@ [C10] ensures object_required: old(a.GetActivityStreamsObject() == nil || a.GetActivityStreamsObject().Len() == 0) ==> result == pub.ErrObjectRequired && eff == old(eff)
 
 //@ func (pub.SocialWrappedCallbacks).block
-//@ [C11] requires w.db != nil && w.outboxIRI != nil && w.undeliverable != nil && a != nil
+//@ [C11] requires w.db != nil && w.outboxIRI != nil && w.undeliverable != nil && a != nil && w.newTransport != nil && w.clock != nil
 //@ [C09] requires unlocked: held == emp
 //@ [C09] ensures unlocked: held == emp
 //@ [C08] requires unlocked: held == emp
@@ -745,17 +785,25 @@ package pub
 //@ loop 2 [C09] invariant holds_t: held == emp[str(t) := true]
 //@ loop 1 [C08] invariant holds_t: held == emp[str(t) := true] && srcKey[tp] == str(t) && srcEpoch[tp] == epoch[str(t)]
 //@ loop 2 [C08] invariant holds_t: held == emp[str(t) := true] && srcKey[tp] == str(t) && srcEpoch[tp] == epoch[str(t)]
+//@ loop 1 [C11] invariant idx: 0 <= i
+//@ loop 1 [C11] decreases oiProp.Len() - i
+//@ loop 2 [C11] invariant idx: 0 <= i
+//@ loop 2 [C11] decreases iProp.Len() - i
 
 //@ func pub.mustHaveActivityActorsMatchObjectActors
 //@ [C11] requires newTransport != nil
 //@ [C07] requires authed: authed
 //@ modifies eff, appCalls
+//@ [C11] requires actors != nil
+//@ [C11] requires op != nil
 
 //@ func pub.ToId
 //@ [C11] requires i != nil
+//@ [C11] ensures nonnil_id: result1 == nil ==> result0 != nil
 
 //@ func pub.GetId
 //@ [C11] requires t != nil
+//@ [C11] ensures nonnil_id: result1 == nil ==> result0 != nil
 
 //@ func pub.getInboxForwardingValues
 //@ [C11] requires o != nil
@@ -763,10 +811,14 @@ package pub
 
 //@ func pub.wrapInCreate
 //@ [C11] requires o != nil
-//@ modifies ASH
+//@ modifies ASH, ASHP, props
 
 //@ func pub.filterURLs
 //@ modifies A:Int
+//@ [C11] requires fn != nil
+//@ loop 1 [C11] invariant idx: 0 <= i
+//@ loop 1 [C11] decreases len(u) - i
+
 //@ dyncall pub.filterURLs.fn
 //@ pure
 
@@ -774,34 +826,41 @@ package pub
 //@ modifies A:Int, A:Iface
 
 //@ func pub.getInbox
+//@ [C11] ensures nonnil_id: err == nil ==> u != nil
 
 //@ func pub.dedupeIRIs
 //@ modifies A:Int, A:Iface
 
 //@ func pub.removeOne
+//@ [C11] requires entry != nil
 //@ modifies A:Int, A:Iface
 
 //@ func pub.stripHiddenRecipients
 //@ [C11] requires activity != nil
-//@ modifies ASH
+//@ modifies ASH, ASHP, props
 
 //@ func pub.mustHaveActivityOriginMatchObjects
 //@ [C11] requires a != nil
 
 //@ func pub.normalizeRecipients
 //@ [C11] requires a != nil
-//@ modifies ASH, A:Int, A:Iface, MD:String:Int, MV:String:Int
+//@ modifies ASH, ASHP, props, A:Int, A:Iface, MD:String:Int, MV:String:Int
+//@ skip C11 panic-freedom and termination of normalizeRecipients need quantified invariants over five slices of maps and type-distinctness of property values; not proved (bounded stand-in only)
 
 //@ func pub.toTombstone
 //@ [C11] requires obj != nil
-//@ modifies ASH
+//@ modifies ASH, ASHP, props, idval
 
 //@ func pub.clearSensitiveFields
-//@ modifies ASH
+//@ modifies ASH, ASHP, props
+//@ [C11] decreases tdepth(obj)
+//@ [C11] at call pub.clearSensitiveFields#1: assume! finite_tree: 0 <= tdepth($arg0) && tdepth($arg0) < tdepth(obj)
 
 //@ func pub.dedupeOrderedItems
 //@ [C11] requires oc != nil
-//@ modifies ASH
+//@ modifies ASH, ASHP, props
+//@ loop 1 [C11] invariant idx: 0 <= i
+//@ loop 1 [C11] decreases oi.Len() - i
 
 //@ func pub.requestId
 //@ [C11] requires r != nil && r.URL != nil
